@@ -18,6 +18,9 @@ type subSpec struct {
 	Concurrent bool // Subscribe runs in its own goroutine, concurrently with the publishers
 	Nacks      int  // nack the first Nacks deliveries of every message, then ack
 	Mutate     bool // edit the copy's metadata before settling it
+	// SafetyNet: after its Ack the consumer also calls Nack (the `defer msg.Nack()` pattern): the refused Nack changes
+	// nothing, the message is not delivered again
+	SafetyNet bool
 }
 
 func (s subSpec) String() string {
@@ -27,6 +30,9 @@ func (s subSpec) String() string {
 	}
 	if s.Concurrent {
 		x += "c"
+	}
+	if s.SafetyNet {
+		x += "+acknack"
 	}
 	return x
 }
@@ -127,6 +133,11 @@ func body(sp spec) {
 			} else {
 				d.acked = true
 				m.Ack()
+				if spc.SafetyNet {
+					if m.Nack() {
+						vs.Fail("redelivery", "subscription %d: Nack after Ack of %q reported success", s, m.UUID)
+					}
+				}
 			}
 		}
 	}
@@ -399,6 +410,7 @@ func init() {
 		add(reg.Quick, 10, spec{Cfg: cfg, Pubs: 1, Msgs: 1, EmptyMeta: true, Subs: []subSpec{{Nacks: 0, Mutate: true}, {Nacks: 1, Mutate: true}}, C: -1}, -1)
 		add(reg.Quick, 3, spec{Cfg: cfg, Pubs: 1, Msgs: 2, EmptyUUID: true, Subs: []subSpec{{Nacks: 1, Mutate: true}}, C: -1}, -1)
 		add(reg.Quick, 3, spec{Cfg: cfg, Pubs: 1, Msgs: 1, EmptyUUID: true, Subs: []subSpec{{Nacks: 0}, {Concurrent: true}}, C: 1}, 2)
+		add(reg.Quick, 3, spec{Cfg: cfg, Pubs: 1, Msgs: 1, Subs: []subSpec{{Nacks: 1, SafetyNet: true}}, C: 2}, -1)
 		cb := 1 // two preemptions only where the blocking publisher keeps the space small
 		if cfg.Blocking {
 			cb = 2
